@@ -33,3 +33,13 @@ package definition
 //@ site (resource.Applicator).Apply(_, _, $o, $opts...)
 //@   assert [C08:no-apply-while-deleting] !meta.WasDeleted(d)
 //@   assert [C02:crd-apply-controllable] $o == $crd && contains($opts, resource.MustBeControllableBy(d.GetUID()))
+
+// C09 (wiring): every connection publisher handed to an XR controller filters by the XRD's
+// own connectionSecretKeys.
+
+//@ func (*definition.Reconciler).CompositeReconcilerOptions
+//@ props C09
+//@ site composite.NewAPIFilteredSecretPublisher(_, $filter)
+//@   assert [C09:api-publisher-filters-by-xrd-keys] $filter == d.Spec.ConnectionSecretKeys
+//@ site composite.NewSecretStoreConnectionPublisher(_, $filter)
+//@   assert [C09:store-publisher-filters-by-xrd-keys] $filter == d.Spec.ConnectionSecretKeys
